@@ -278,7 +278,8 @@ def check_whole(case):
 
 # ------------------------------------------------------------------ domain C: change, THEN notification
 # only what the statement lists: log records and measurement values (attachments / dut_id are not promised a notification)
-ORDERED_STEPS = ['log-info', 'measure', 'log-framework', 'measure-dim', 'log-plug', 'measure-dim-2', 'measure-pair', 'measure-dim-pair']
+ORDERED_STEPS = ['log-info', 'measure', 'log-framework', 'measure-dim', 'log-plug', 'measure-dim-2', 'measure-pair', 'measure-dim-pair',
+                 'measure-override', 'measure-dim-override', 'measure-dim-after-override']
 _ORD = {'ready': False}
 
 
@@ -310,6 +311,12 @@ def ordered_case():
       if step == 'measure-pair':    # two updates back to back: the second finds the first still pending
         ms_ = rp.get('measurements') or {}
         return ms_.get('m2', {}).get('measured_value') == 1 and ms_.get('m3', {}).get('measured_value') == 2
+      if step == 'measure-override':       # an already set value is set again
+        return (rp.get('measurements') or {}).get('m', {}).get('measured_value') == 8
+      if step in ('measure-dim-override', 'measure-dim-after-override'):   # a coordinate written before is written again, then a new one
+        want = [[1, 11], [2, 20], [3, 30], [4, 40]] + ([[5, 50]] if step == 'measure-dim-after-override' else [])
+        got = (rp.get('measurements') or {}).get('d', {}).get('measured_value')
+        return got is not None and [list(x) for x in got] == want
       if step == 'measure-dim-pair':
         got = (rp.get('measurements') or {}).get('d', {}).get('measured_value')
         return got is not None and [list(x) for x in got] == [[1, 10], [2, 20], [3, 30], [4, 40]]
@@ -343,6 +350,12 @@ def ordered_case():
         elif step == 'measure-dim-pair':
           test.measurements.d[3] = 30
           test.measurements.d[4] = 40
+        elif step == 'measure-override':
+          test.measurements.m = 8
+        elif step == 'measure-dim-override':
+          test.measurements.d[1] = 11
+        elif step == 'measure-dim-after-override':
+          test.measurements.d[5] = 50
         s.sleep(1.0)       # quiescence: the watcher runs until it waits on a fresh event
         view = latest['view']
         if view is None or not view_has(step, view):
